@@ -36,6 +36,8 @@ type glNote struct {
 	NewPath  string
 	NewLine  int
 	OldLine  int
+	SentNew  bool // the line was present in the request that created the note (also when it was 0)
+	SentOld  bool
 }
 
 type fakeGitLab struct {
@@ -107,10 +109,10 @@ func (f *fakeGitLab) ServeHTTP(w http.ResponseWriter, r *http.Request) {
 			n.HasPos = true
 			n.OldPath, n.NewPath = req.Position.OldPath, req.Position.NewPath
 			if req.Position.NewLine != nil {
-				n.NewLine = *req.Position.NewLine
+				n.NewLine, n.SentNew = *req.Position.NewLine, true
 			}
 			if req.Position.OldLine != nil {
-				n.OldLine = *req.Position.OldLine
+				n.OldLine, n.SentOld = *req.Position.OldLine, true
 			}
 		}
 		f.notes = append(f.notes, n)
@@ -248,8 +250,8 @@ func c17ServerCase(cid int, gitlab bool, path, diff string, budget int, pend []m
 
 // glRaw: EVERYTHING the fake GitLab holds, as Model.Platforms.gl_note terms (a line the API omits - 0 here - is None)
 func glRaw(notes []glNote) []string {
-	optLine := func(l int) string {
-		if l == 0 {
+	optLine := func(l int, sent bool) string {
+		if l == 0 && !sent {
 			return "None"
 		}
 		return "(Some " + coqZ(int64(l)) + ")"
@@ -258,7 +260,7 @@ func glRaw(notes []glNote) []string {
 	for _, nn := range notes {
 		pos := "None"
 		if nn.HasPos {
-			pos = fmt.Sprintf("(Some {| gp_old_path := %s; gp_new_path := %s; gp_new_line := %s; gp_old_line := %s |})", c17Str(nn.OldPath), c17Str(nn.NewPath), optLine(nn.NewLine), optLine(nn.OldLine))
+			pos = fmt.Sprintf("(Some {| gp_old_path := %s; gp_new_path := %s; gp_new_line := %s; gp_old_line := %s |})", c17Str(nn.OldPath), c17Str(nn.NewPath), optLine(nn.NewLine, nn.SentNew), optLine(nn.OldLine, nn.SentOld))
 		}
 		out = append(out, fmt.Sprintf("{| gn_system := %s; gn_mine := %s; gn_pos := %s; gn_body := %s |}", coqBool(nn.System), coqBool(nn.AuthorID == 7), pos, c17Str(nn.Body)))
 	}
